@@ -448,6 +448,7 @@ type scenario struct {
 	Depth      int // sequences of up to Depth operations; at the last position only push operations are run
 	FaultDepth int // fault probes on faultable pushes at positions < FaultDepth
 	Faults     []string
+	Weight     int // share of the time budget (only matters when the machine is too loaded to finish)
 }
 
 func (p *scenario) points(init int, path []int, fault int) []vx.Point {
@@ -667,6 +668,10 @@ func (e *envT) bfs(p *scenario, deadline time.Time) (*vx.Stats, bfsInfo) {
 					info.FaultProbes++
 				}
 				if d.main.inconcl != "" {
+					st.Exhaustive = false
+					if st.CapHit == "" {
+						st.CapHit = "a tool timeout left a transition inconclusive (its successor was not expanded)"
+					}
 					continue
 				}
 				if !seen[d.main.post.Key] {
@@ -1000,6 +1005,8 @@ var (
 	initSynced   = [2]string{"main=c0 pushed to origin (objects A1,E1 on its server)", "git push origin <cur>"}
 	initDiverged = [2]string{"c0 pushed; local main=c0+{a.bin->A2}, local f=c0+{b.bin->B1}, HEAD=main",
 		"git push origin <cur>; branch f; commit a.bin=A2; checkout f; commit b.bin=B1; checkout main"}
+	initThree = [2]string{"c0 pushed; local main=c0+{a.bin->A2}, f=c0+{b.bin->B1}, orphan o={a.bin->A2}, HEAD=main",
+		"git push origin <cur>; branch f; commit a.bin=A2; checkout f; commit b.bin=B1; orphan branch o; checkout main"}
 	initTwoBranches = [2]string{"main=c0+{a.bin->A2} and f=c0+{b.bin->B1} both pushed to origin, HEAD=main",
 		"branch f; commit a.bin=A2; checkout f; commit b.bin=B1; checkout main; git push origin --all"}
 )
@@ -1017,20 +1024,31 @@ func (e *envT) scenarios() []*scenario {
 		faults = faultNames
 	}
 
-	main := &scenario{Name: "main", Depth: 3, FaultDepth: 2, Faults: faults}
-	main.Ops = append(localOps(true, e.thorough), remoteOps(0, true, e.thorough)...)
+	// main: the quick alphabet of 35 operations on one remote, from the synced and the unpushed world
+	main := &scenario{Name: "main", Depth: 3, FaultDepth: 2, Faults: faults, Weight: 6}
+	main.Ops = append(localOps(true, false), remoteOps(0, true, false)...)
 	if e.thorough {
-		main.Depth, main.FaultDepth = 4, 3
+		main.Depth, main.FaultDepth = 4, 2
 	}
 	e.mkInits(main, baseHTTP, [][2]string{initSynced, initUnpushed})
 
-	graphs := &scenario{Name: "graphs", Depth: 3, FaultDepth: 1, Faults: faults}
+	// graphs: starts from branching histories so that merges / multi-ref pushes are within the depth bound
+	graphs := &scenario{Name: "graphs", Depth: 3, FaultDepth: 1, Faults: faults, Weight: 3}
 	graphs.Ops = append(localOps(true, e.thorough), remoteOps(0, true, e.thorough)...)
-	if !e.thorough {
-		graphs.Depth = 2
+	gi := [][2]string{initDiverged, initTwoBranches}
+	if e.thorough {
+		gi = append(gi, initThree)
 	}
-	e.mkInits(graphs, baseHTTP, [][2]string{initDiverged, initTwoBranches})
+	e.mkInits(graphs, baseHTTP, gi)
 	ps = append(ps, graphs)
+
+	if e.thorough {
+		// wide: the full thorough alphabet (octopus, batch sizes 1/2, fetch --prune, another client pushing, ...) to depth 3
+		wide := &scenario{Name: "wide", Depth: 3, FaultDepth: 2, Faults: faults, Weight: 2}
+		wide.Ops = append(localOps(true, true), remoteOps(0, true, true)...)
+		e.mkInits(wide, baseHTTP, [][2]string{initSynced, initUnpushed})
+		ps = append(ps, wide)
+	}
 
 	two := &scenario{Name: "tworemotes", Depth: 3, FaultDepth: 0, Faults: faults}
 	two.Ops = append(append(localOps(false, false), remoteOps(0, false, false)...), remoteOps(1, false, false)...)
@@ -1040,6 +1058,8 @@ func (e *envT) scenarios() []*scenario {
 	e.mkInits(two, baseHTTP, [][2]string{initSynced})
 	ps = append(ps, two)
 
+	// servergc: NOT the design's base assumption (a server that never deletes): here the server may drop objects that no
+	// ref of the remote refers to.  Kept apart so that its findings are attributable to that extra freedom.
 	gc := &scenario{Name: "servergc", Depth: 3, FaultDepth: 0, Faults: faults}
 	gc.Ops = append(append(localOps(false, false), remoteOps(0, false, false)...), gcOp(0))
 	if e.thorough {
@@ -1052,7 +1072,8 @@ func (e *envT) scenarios() []*scenario {
 		e.eachWorker(func(w *worker) { w.setTransport(true) })
 		baseFile := e.buildBase(true)
 		file := &scenario{Name: "file", FileMode: true, Depth: 3, FaultDepth: 0}
-		file.Ops = append(localOps(false, false), remoteOps(0, true, false)...)
+		file.Ops = append(append(localOps(false, false), pick(localOps(true, false), "truncate-object A1", "toggle lfs.allowincompletepush",
+			"rm-object A1, work tree has the same content", "merge f")...), remoteOps(0, true, false)...)
 		if e.thorough {
 			file.Depth = 4
 		}
@@ -1060,7 +1081,14 @@ func (e *envT) scenarios() []*scenario {
 		e.eachWorker(func(w *worker) { w.setTransport(false) })
 		ps = append(ps, file)
 	}
-	ps = append(ps, main) // the largest scenario runs last: a deadline cuts it, not the others
+	ps = append(ps, main) // the largest scenario runs late: a deadline cuts it, not the others
+	if e.thorough {
+		// deep: a depth-5 slice over a 13-operation alphabet (every sequence of 5 ending in a push)
+		deep := &scenario{Name: "deep", Depth: 5, FaultDepth: 0, Faults: faults}
+		deep.Ops = append(localOps(false, false), remoteOps(0, false, false)...)
+		e.mkInits(deep, baseHTTP, [][2]string{initSynced})
+		ps = append(ps, deep)
+	}
 	return ps
 }
 
@@ -1068,7 +1096,7 @@ func (e *envT) scenarios() []*scenario {
 
 func TestVerifC03(t *testing.T) {
 	c := vx.NewCheck("C03", "model_checking")
-	gitx.CmdTimeout = 60 * time.Second
+	gitx.CmdTimeout = 120 * time.Second
 	e := newEnv(c)
 	parts := e.scenarios()
 
@@ -1090,7 +1118,7 @@ func TestVerifC03(t *testing.T) {
 		"Another client is modelled as a correct client acting directly on the bare remote: it only moves branches to commits whose objects are on the server, or uploads its object before pushing.",
 		"Commits are built with git plumbing (hash-object, mktree, commit-tree, update-ref) and the LFS objects are placed into .git/lfs/objects as the clean filter would; at start the harness checks that its pointer texts equal the output of the real `git lfs clean`, that `git lfs pointer --check` accepts the 1023-byte pointer and that `git lfs update` installed the pre-push hook. The work tree contains only files written by the rm-object variants.",
 		"Remotes are local paths (git's own transport is not the subject); the LFS leg is real HTTP to loopback servers, or the standalone file transfer for file:// remotes (scenario 'file').",
-		"Timeouts (60 s per command) are tool guards => inconclusive, never violations. lfs.transfer.maxretries=2, maxretrydelay=1 and lfs.locksverify=false are set to keep fault probes short and to leave locking to C16.",
+		"Timeouts (120 s per command) are tool guards => inconclusive, never violations. lfs.transfer.maxretries=2, maxretrydelay=1 and lfs.locksverify=false are set to keep fault probes short and to leave locking to C16.",
 	}
 	c.Bounds["tier"] = c.Tier
 	for _, p := range parts {
@@ -1138,11 +1166,29 @@ func TestVerifC03(t *testing.T) {
 			vparts = append(vparts, vx.Part{Scenario: isc.Name, Stats: e.initStats[fm], Exec: e.execFor(isc)})
 		}
 	}
+	var run []*scenario
+	wsum := 0
 	for _, p := range parts {
-		p := p
 		if only != "" && !strings.HasPrefix(p.Name, only) {
 			continue
 		}
+		if p.Weight == 0 {
+			p.Weight = 1
+		}
+		wsum += p.Weight
+		run = append(run, p)
+	}
+	globalDeadline := deadline
+	for _, p := range run {
+		p := p
+		// every scenario gets its share of what is left, so that an overloaded machine cuts all of them at some
+		// level instead of skipping the later ones; unused time is passed on
+		left := time.Until(globalDeadline)
+		if left < 0 {
+			left = 0
+		}
+		deadline = time.Now().Add(left * time.Duration(p.Weight) / time.Duration(wsum))
+		wsum -= p.Weight
 		if p.FileMode {
 			e.eachWorker(func(w *worker) { w.setTransport(true) })
 		}
@@ -1174,6 +1220,23 @@ func (e *envT) execFor(p *scenario) func(pr []vx.Point) vx.Result {
 		}
 		return vx.SafeRun(run, pr)
 	}
+}
+
+func pick(ops []opDef, names ...string) []opDef {
+	var r []opDef
+	for _, n := range names {
+		found := false
+		for _, o := range ops {
+			if o.Name == n {
+				r = append(r, o)
+				found = true
+			}
+		}
+		if !found {
+			panic(vx.ToolError{Msg: "pick: no operation named " + n})
+		}
+	}
+	return r
 }
 
 func maxDepth(infos []bfsInfo) int {
